@@ -44,7 +44,7 @@ def fit_one(est, df, meta, tside, oside):
     if est == 'AIPTW':
         o = AIPTW(df, 'A', 'Y')
     else:
-        o = TMLE(df, 'A', 'Y', continuous_bound=1e-10)
+        o = TMLE(df, 'A', 'Y') if binary else TMLE(df, 'A', 'Y', continuous_bound=1e-10)   # the option is for continuous outcomes only
     if tside[0] == 'sat':
         o.exposure_model(meta['sat_L'], print_results=False)
     elif tside[0] == 'formula':
@@ -82,8 +82,28 @@ def fit_one(est, df, meta, tside, oside):
     return out
 
 
+def rare_frame(rng):
+    """rare binary outcome: some (stratum, arm) cells have a risk below 1/2000 (one or two events among thousands)"""
+    rows = []
+    for s_code in (0, 1):
+        for a in (0, 1):
+            m = rng.randint(2200, 3000)
+            # treated arm of stratum 0 and untreated arm of stratum 1: a single event (risk < 1/2000); the others vary
+            ev = 1 if (s_code, a) in ((0, 1), (1, 0)) else (rng.choice([1, 2]) if rng.random() < 0.4 else rng.randint(40, 300))
+            rows += [[s_code, a, 1.0, s_code]] * ev + [[s_code, a, 0.0, s_code]] * (m - ev)
+    rng.shuffle(rows)
+    df = pd.DataFrame(rows, columns=['L0', 'A', 'Y', 'S'])
+    meta = {'n_cov': 1, 'arities': [2], 'outcome': 'binary', 'n': len(df), 'n_strata': 2, 'sat_L': 'C(L0)', 'sat_AL': 'A * C(L0)',
+            'sub_models': ['1'], 'rare': True}
+    return df, meta
+
+
 def gen_runs(ctx, n_frames):
     runs = []
+    for _ in range(1 if ctx.quick else 4):
+        df, meta = rare_frame(ctx.rng)
+        for est in ('AIPTW', 'TMLE'):
+            runs.append({'df': df, 'meta': meta, 'est': est, 'which': 'outcome-saturated', 't': ('formula', '1'), 'o': ('sat',)})
     for i in range(n_frames):
         otype = ['binary', 'normal'][i % 2]
         df, meta = datagen.cat_frame(ctx.rng, outcome=otype, cell=(2, 5))
@@ -117,6 +137,25 @@ def run_runs(ctx, fails, runs):
         g, _ = ec.snap_vec(out['g'], n)
         q1, _ = ec.snap_vec(out['q1'], n, yden)
         q0, _ = ec.snap_vec(out['q0'], n, yden)
+        if rn['meta'].get('rare'):
+            # thousands of rows: aggregate identical rows into one weighted row (theorem C09_aggregates: the specification
+            # and the weighted means are the same on weighted and on replicated rows); nuisance values are functions of the
+            # stratum here, so rows of one (stratum, arm, outcome) cell are identical
+            cells = {}
+            for i in range(n):
+                k = (int(out['S'][i]), int(out['A'][i]), Y[i])
+                c = cells.setdefault(k, [0, g[i], q1[i], q0[i]])
+                c[0] += 1
+            keys = sorted(cells, key=lambda k: (k[0], k[1], float(k[2])))
+            W = [Fraction(cells[k][0]) for k in keys]
+            raw = ec.coq_rows([k[0] for k in keys], [k[1] for k in keys], [k[2] for k in keys], W=W)
+            ann = ec.coq_rows([k[0] for k in keys], [k[1] for k in keys], [k[2] for k in keys], W=W,
+                              g1=[cells[k][1] for k in keys], q1=[cells[k][2] for k in keys], q0=[cells[k][3] for k in keys])
+            if rn['est'] == 'AIPTW':
+                exprs.append('(let l := %s in Qflat [std TAll true l; std TAll false l], let l := %s in Qflat [aipw_mean aipw_y1 l; aipw_mean aipw_y0 l])' % (raw, ann))
+            else:
+                exprs.append('(let l := %s in Qflat [std TAll true l; std TAll false l], @nil (list Z))' % raw)
+            continue
         raw = ec.coq_rows(out['S'], out['A'], Y)
         ann = ec.coq_rows(out['S'], out['A'], Y, g1=g, q1=q1, q0=q0)
         if rn['est'] == 'AIPTW':
@@ -144,14 +183,14 @@ def run_runs(ctx, fails, runs):
         ctx.programs += 1
         ctx.nontriv([est, which, repr(rn['t']), repr(rn['o']), rn['df']['Y'].tolist()])
         s1, s0 = frac(r[0][0]), frac(r[0][1])
-        m = [frac(x) for x in r[1]]
+        m = [frac(x) for x in r[1]] if r[1] else None
         ctx.sample({'est': est, 'which': which, 'treatment_side': rn['t'][:2], 'outcome_side': rn['o'][:2], 'n': n,
                     'impl_rd': out['rd'], 'std_rd': float(s1 - s0)}, cap=4)
         # correspondence: model fed the implementation's own nuisance values reproduces its estimate
         ctx.disagreements_checked += 1
-        if not close(out['rd'], m[0] - m[1], TOL_FIT):
+        if m is not None and not close(out['rd'], m[0] - m[1], TOL_FIT):
             ctx.broken_ties.append('correspondence: %s model %s vs implementation %r (%s)' % (est, m[0] - m[1], out['rd'], which))
-        if est == 'TMLE':
+        if est == 'TMLE' and m is not None:
             ctx.oracle_checks += 1
             if abs(float(m[2])) > 1e-5 * n or abs(float(m[3])) > 1e-5 * n:
                 ctx.broken_ties.append('oracle: TMLE fluctuation did not solve its score equations (%g, %g)' % (float(m[2]), float(m[3])))
